@@ -292,7 +292,9 @@ def m_oneof_order(x, ref: RefResult, spec: dict, rid: int = 0) -> t.List[V]:
             for pos, n, i, kw, _ in tr.starts:
                 if n in private:
                     earlier_fail = [p for m, p in fail_pos.items() if m in cone[cands[j - 1]] and p < pos]
-                    engine_fail = 'oneof.all-failed' in ref.tags or 'rec.exhausted' in ref.tags
+                    # only decidable from body events when the previous candidate failed because a body raised
+                    bf = o.get('body_failed', [])
+                    engine_fail = not (j - 1 < len(bf) and bf[j - 1])
                     if not earlier_fail and not engine_fail:
                         out.append(('candidate-started-early',
                                     f'{n}#{i} (needed only by candidate {cands[j]}) started before candidate {cands[j-1]} failed'))
@@ -321,7 +323,9 @@ def m_cancel(x, rid: int = 0) -> t.List[V]:
         return [('cancel-hang', f'cancelled run never finished ({x.status})')]
     oc = x.outcomes[rid]
     if oc[0] == 'raised':
-        out.append(('cancel-wrong-exception', f'canceller saw {type(oc[1]).__name__}'))
+        # a BaseException raised by a node body legitimately propagates, cancelled or not
+        if not any(e is oc[1] for (_, _, _, e) in x.world.raised if isinstance(e, W.Fatal)):
+            out.append(('cancel-wrong-exception', f'canceller saw {type(oc[1]).__name__}'))
     return out
 
 
